@@ -112,4 +112,91 @@ theorem parseAuditHeader_decomp (pre S M N rest : Bytes) (h1 : (40 : Nat) ∉ pr
   | none => rfl
   | some q => obtain ⟨a, b, c⟩ := q; rfl
 
+theorem indexOf_split {c : Nat} {s : Bytes} {i : Nat} (h : indexOf c s = some i) :
+    ∃ a b, s = a ++ c :: b ∧ c ∉ a ∧ a.length = i := by
+  obtain ⟨h1, h2, h3⟩ := indexOf_spec h
+  refine ⟨s.take i, s.drop (i + 1), ?_, h3, by simp; omega⟩
+  rw [← h2, List.take_append_drop]
+
+/-- converse of `headerIdx_decomp`: whenever the four separators are found, the line is cut by them
+into parts none of which contains the separator that ends it. -/
+theorem headerIdx_some {line : Bytes} {q : Nat × Nat × Nat × Nat} (h : headerIdx line = some q) :
+    ∃ pre S M N rest, (40 : Nat) ∉ pre ∧ (46 : Nat) ∉ S ∧ (58 : Nat) ∉ M ∧ (41 : Nat) ∉ N ∧
+      line = pre ++ 40 :: (S ++ 46 :: (M ++ 58 :: (N ++ 41 :: rest))) := by
+  unfold headerIdx at h
+  cases h1 : indexOf 40 line with
+  | none => simp [h1] at h
+  | some a =>
+    simp only [h1] at h
+    obtain ⟨pre, t1, e1, n1, l1⟩ := indexOf_split h1
+    have d1 : line.drop a = 40 :: t1 := by rw [e1, List.drop_left' l1]
+    rw [d1] at h
+    cases h2 : indexOf 46 (40 :: t1) with
+    | none => simp [h2] at h
+    | some b =>
+      simp only [h2] at h
+      obtain ⟨x, t2, e2, n2, l2⟩ := indexOf_split h2
+      cases x with
+      | nil => simp at e2
+      | cons x0 S =>
+        simp only [List.cons_append, List.cons.injEq] at e2
+        obtain ⟨ex, e2⟩ := e2
+        subst ex
+        have d2 : line.drop (a + b) = 46 :: t2 := by
+          have : line = (pre ++ 40 :: S) ++ 46 :: t2 := by rw [e1, e2]; simp
+          rw [this, List.drop_left' (by simp at l2 ⊢; omega)]
+        rw [d2] at h
+        cases h3 : indexOf 58 (46 :: t2) with
+        | none => simp [h3] at h
+        | some c =>
+          simp only [h3] at h
+          obtain ⟨y, t3, e3, n3, l3⟩ := indexOf_split h3
+          cases y with
+          | nil => simp at e3
+          | cons y0 M =>
+            simp only [List.cons_append, List.cons.injEq] at e3
+            obtain ⟨ey, e3⟩ := e3
+            subst ey
+            have d3 : line.drop (a + b + c) = 58 :: t3 := by
+              have : line = (pre ++ 40 :: (S ++ 46 :: M)) ++ 58 :: t3 := by rw [e1, e2, e3]; simp
+              rw [this, List.drop_left' (by simp at l2 l3 ⊢; omega)]
+            rw [d3] at h
+            cases h4 : indexOf 41 (58 :: t3) with
+            | none => simp [h4] at h
+            | some d =>
+              obtain ⟨z, rest, e4, n4, l4⟩ := indexOf_split h4
+              cases z with
+              | nil => simp at e4
+              | cons z0 N =>
+                simp only [List.cons_append, List.cons.injEq] at e4
+                obtain ⟨ez, e4⟩ := e4
+                subst ez
+                refine ⟨pre, S, M, N, rest, n1, ?_, ?_, ?_, ?_⟩
+                · exact fun hh => n2 (by simp [hh])
+                · exact fun hh => n3 (by simp [hh])
+                · exact fun hh => n4 (by simp [hh])
+                · rw [e1, e2, e3, e4]
+
+/-- success ⇒ decomposes: a header that parses was cut at '(' '.' ':' ')' in this order into three
+numbers that are valid, and the answer is those numbers and the position of ')'. -/
+theorem parseAuditHeader_ok_decomp {line : Bytes} {sec nsec : Int} {seq : Nat} {e : Int}
+    (h : parseAuditHeader line = Res.ok (sec, nsec, seq, e)) :
+    ∃ pre S M N rest, (40 : Nat) ∉ pre ∧ (46 : Nat) ∉ S ∧ (58 : Nat) ∉ M ∧ (41 : Nat) ∉ N ∧
+      line = pre ++ 40 :: (S ++ 46 :: (M ++ 58 :: (N ++ 41 :: rest))) ∧
+      headerNums S M N = some (sec, nsec, seq) ∧
+      e = ((pre.length + (1 + S.length) + (1 + M.length) + (1 + N.length) : Nat) : Int) := by
+  cases hi : headerIdx line with
+  | none => simp [parseAuditHeader, hi] at h
+  | some q =>
+    obtain ⟨pre, S, M, N, rest, n1, n2, n3, n4, el⟩ := headerIdx_some hi
+    refine ⟨pre, S, M, N, rest, n1, n2, n3, n4, el, ?_⟩
+    rw [el, parseAuditHeader_decomp pre S M N rest n1 n2 n3 n4] at h
+    cases hn : headerNums S M N with
+    | none => simp [hn] at h
+    | some r =>
+      obtain ⟨a, b, c⟩ := r
+      simp only [hn, Res.ok.injEq, Prod.mk.injEq] at h
+      obtain ⟨rfl, rfl, rfl, rfl⟩ := h
+      exact ⟨rfl, rfl⟩
+
 end LA.Auparse
